@@ -3,7 +3,8 @@
 // cfg   : <mutex kind> <throwing user-call index>...
 //         mutex kind 0 shared_timed_mutex (the default M), 1 shared_mutex, 2 timed_mutex, 3 mutex
 // ops   : 0 fid        modify_detach(functor fid)
-//         1 fid slot   futures[slot] = modify_async(functor fid)
+//         1 fid slot   futures[slot] = modify_async(functor fid); slot >= 100: the functor returns void (future<void>,
+//                      get() reported as 0)
 //         2 h          handles[h] = lock_shared()                (no-op, -1, when slot h is in use)
 //         3 h          handles[h] = try_lock_shared()
 //         4 h          handles[h] = try_lock_shared_for(1ms)     (no-op, -1, when M has no timed forms)
@@ -63,7 +64,21 @@ void operator delete(void* p, std::size_t) noexcept { operator delete(p); }
 void operator delete[](void* p, std::size_t) noexcept { operator delete(p); }
 
 namespace {
-using vs::VPay;
+// The payload: vs::VPay plus a recognisable initializer_list constructor (JSON-like / vector<any>-like types have
+// one).  List-initialisation from a payload - `T newObj{*handle}` instead of `T newObj(*handle)` - selects it, and
+// the new object is then a one-element WRAPPER, not a copy of the stored value: reported as K_FAULT code 9, the
+// value is the sentinel -9999.  Nothing in the unmodified library or in this driver list-initialises a payload
+// from a payload (the explicit VPay(long) keeps `T{n}` away from it), so it is never selected on the unchanged tree.
+struct VPay: vs::VPay {
+    explicit VPay(long x): vs::VPay(x) {}
+    VPay(const VPay&) = default;
+    VPay(VPay&&) = default;
+    VPay(std::initializer_list<VPay> il): vs::VPay(-9999L)
+    {
+        (void)il;
+        vs::fault(this, 9);
+    }
+};
 inline long apply_f(long fid, long v) { return fid < 100 ? v * 16 + fid : fid; }
 // the pending flag without an event, whatever its type (instrumented atomic, or a plain bool after a change)
 template<class F>
@@ -116,8 +131,9 @@ struct Inst: IInst {
     // per-thread tables; declared after dg so that they are destroyed first
     std::vector<std::map<long, std::unique_ptr<Handle>>> handles;
     std::vector<std::map<long, std::future<long>>> futures;
+    std::vector<std::map<long, std::future<void>>> vfutures;  // slots >= 100
 
-    explicit Inst(int nthreads): dg(0L), handles(nthreads), futures(nthreads) {}
+    explicit Inst(int nthreads): dg(0L), handles(nthreads), futures(nthreads), vfutures(nthreads) {}
 
     template<class F>
     long acquire(int tid, long h, F&& f)
@@ -141,6 +157,14 @@ struct Inst: IInst {
             }
             case 1: {
                 long fid = o[1];
+                if (o[2] >= 100) {
+                    std::future<void> fut = dg.modify_async([fid](VPay& x) {
+                        vs::user_call(fid);
+                        x.write(apply_f(fid, x.read()));
+                    });
+                    vfutures[tid][o[2]] = std::move(fut);
+                    return 0;
+                }
                 // the old future of the slot (if any) is dropped when the call has returned
                 std::future<long> fut = dg.modify_async([fid](VPay& x) -> long {
                     vs::user_call(fid);
@@ -185,11 +209,33 @@ struct Inst: IInst {
             }
             case 9: return dg.load().peek();
             case 10: {
+                if (o[1] >= 100) {
+                    auto vit = vfutures[tid].find(o[1]);
+                    if (vit == vfutures[tid].end()) return -1;
+                    return vit->second.wait_for(std::chrono::seconds(0)) == std::future_status::ready ? 1 : 0;
+                }
                 auto it = futures[tid].find(o[1]);
                 if (it == futures[tid].end()) return -1;
                 return it->second.wait_for(std::chrono::seconds(0)) == std::future_status::ready ? 1 : 0;
             }
             case 11: {
+                if (o[1] >= 100) {
+                    auto vit = vfutures[tid].find(o[1]);
+                    if (vit == vfutures[tid].end()) return -1;
+                    if (vit->second.wait_for(std::chrono::seconds(0)) != std::future_status::ready) return -2;
+                    long r = 0;
+                    try {
+                        vit->second.get();
+                    }
+                    catch (const vs::VThrow&) {
+                        r = -3;
+                    }
+                    catch (...) {
+                        r = -4;
+                    }
+                    vfutures[tid].erase(vit);
+                    return r;
+                }
                 auto it = futures[tid].find(o[1]);
                 if (it == futures[tid].end()) return -1;
                 if (it->second.wait_for(std::chrono::seconds(0)) != std::future_status::ready) return -2;
